@@ -257,6 +257,8 @@ def execute(spec, ctx):
         if npat > 1 and "real" not in spec:
             for X in pre[1]:
                 dev = geom.kabsch(P, np.asarray(X, float))[2].max()
+                if dev <= atol / (2.0 * K * K):
+                    eps = max(eps, float(dev))       # the round trip re-places atoms at ideal positions: off by O(K * residual)
                 if dev > atol / (2.0 * K * K):
                     # ... unless the reported site is no occurrence at all (then the sequence below is judged as it stands:
                     # a correct search never reports such a site, so this cannot raise an alarm on correct code)
@@ -291,9 +293,11 @@ def execute(spec, ctx):
             preB = findcheck.call_find(ctx, res1, replace, atol, hints, with_quats=True)
             PB = np.array(spec["replace"]["positions"], float).reshape(-1, 3)
             for X in preB[1]:
-                if geom.kabsch(PB, np.asarray(X, float))[2].max() > atol / (2.0 * K * K):
+                devB = float(geom.kabsch(PB, np.asarray(X, float))[2].max())
+                if devB > atol / (2.0 * K * K):
                     ctx.count("aba_borderline_occurrence_not_judged")
                     return
+                eps = max(eps, devB)
             if replcheck.overlapping([tuple(int(i) for i in t) for t in preB[0]]):
                 ctx.count("overlapping_occurrences_left_to_C07")
                 return
